@@ -96,7 +96,7 @@ theorem sendFunds_one (b : MintPay.Bank) (src dst : Addr) (c : Coin) :
     b.sendFunds src dst [c] = b.send src dst c := by
   by_cases hc : c.amount = 0
   · have hne : (c.amount != 0) = false := by simp [hc]
-    simp [MintPay.Bank.sendFunds, List.filter, hne, MintPay.Bank.send, hc]
+    simp [MintPay.Bank.sendFunds, List.filter, MintPay.Bank.send, hc]
   · have hne : (c.amount != 0) = true := by simp [hc]
     simp only [MintPay.Bank.sendFunds, List.filter, hne, List.isEmpty_cons, Bool.false_eq_true, if_false,
       MintPay.Bank.sendAll]
@@ -199,23 +199,8 @@ theorem ofCode_base_iff (code : Nat) :
 
 theorem collKind_std (c : VF.Codes) (hc : c.colls = [16, 17, 18, 19]) (code : Nat) :
     (variantOf c code).isSome = FC.isSg721Code code := by
-  unfold variantOf VF.Codes.collKindOf FC.isSg721Code
-  rw [hc]
-  by_cases h16 : code = 16
-  · subst h16; rfl
-  by_cases h17 : code = 17
-  · subst h17; rfl
-  by_cases h18 : code = 18
-  · subst h18; rfl
-  by_cases h19 : code = 19
-  · subst h19; rfl
-  have hne : ¬ (16 ≤ code ∧ code ≤ 19) := by omega
-  have e16 : (16 == code) = false := by simp; omega
-  have e17 : (17 == code) = false := by simp; omega
-  have e18 : (18 == code) = false := by simp; omega
-  have e19 : (19 == code) = false := by simp; omega
-  simp [List.findIdx?, List.findIdx?.go, e16, e17, e18, e19]
-  omega
+  unfold FC.isSg721Code
+  exact variantOf_std c hc code
 
 theorem collectionChecks_eq (msg : CreateMsg) (sender : Addr) (funds : List Coin) :
     FC.collectionOk (fcCreateMsg sender funds msg) =
